@@ -27,6 +27,7 @@ RULE = (
     "distance), per-frame critical filters, pass/fail thresholds, all label policies, merging on/off, ego translation up to 1e4 "
     "and yaw over (-pi, pi]; non-trivial = pair in which the critical filter removed an object or a TP has a heading "
     "difference; distinct = (task, policy, range kind, removed?, tp?, fp?, fn?, tn?, n_frames class)"
+    " Later additions: range-filter quantities (|x|, |y|, planar distance through the frame's registry) compared between the renderings; ego headings almost along a map axis; follower vehicles at the range limit; twin ground truths at map offsets up to 1e5 m; estimates on the integer map grid given as ints; runs without a registered ego pose; interpolated lookups."
 )
 ASSUMPTIONS = ["objects and ego have yaw-only rotations", "no decision within 1e-6 of a boundary in the ego-frame description (otherwise skipped)"]
 DECIDING = ["C07.interpolated_pairs_compared", "C07.pairs_compared", "C07.frames_compared", "C07.pairs_with_removed_object", "C07.pairs_with_tp", "C07.tracking_pairs", "C07.scene_compared", "C07.no_ego_pose_runs_compared", "C07.follower_pairs_compared", "C07.twin_pairs_compared", "C07.integer_map_estimates"]
